@@ -18,6 +18,10 @@ def union_copy_shortcut_wrong_member(v):
     f = v.get("facts", {})
     if bool(f.get("union_copy_shortcut")) and f.get("encoded_only_basic") is False:
         return True
+    # the shallow .copy() of the wrong member also leaves the value's NESTED containers shared (C18), even when
+    # nothing needed conversion (e.g. [[]] taken for a Dict[str, float])
+    if bool(f.get("union_copy_shortcut")) and f.get("kind") == "extra-sharing":
+        return True
     # general form of the same mechanism (C11): the union serializer takes the first member, in declaration
     # order, whose packer does not raise; a non-basic member declared before the value's own member got the value
     if bool(f.get("earlier_nonscalar_member_before_value_member")) and v.get("sig", "").startswith("encode:"):
